@@ -19,7 +19,11 @@ Edits(w) ==
     \cup {w \o <<ch>> : ch \in {0, 32, 49, 95, 97}}                                              \* extensions
 
 StrTables == {"Version", "Extension", "Transport", "Format"}
-AllNamesOfAllTables == UNION {EnumStrTable(t) : t \in StrTables}
+\* identifiers that exist in the FIDO / WebAuthn / IANA registries but are NOT in this library's
+\* tables (a table that silently grows is caught here)
+RegistryOthers == {N_fidoU2f, N_tpm, N_androidKey, N_androidSafetynet, N_apple, N_ble, N_internal, N_hybrid, N_smartCard,
+                   N_FIDO_2_2, N_U2F_V1, N_credBlob, N_minPinLength, N_largeBlob, N_hmacSecretMc, N_prf, N_credProps}
+AllNamesOfAllTables == UNION {EnumStrTable(t) : t \in StrTables} \cup RegistryOthers
 
 \* through TryFrom<&str> / Into<&str> ...
 StrCases ==
@@ -34,7 +38,9 @@ StrDecCases ==
 U8Cases ==
     {[op |-> "enum_u8", tag |-> "enum-u8", table |-> t, n |-> n] : t \in {"CredProtect", "ControlByte"}, n \in 0..255}
 
-BigInts == {CUInt(<<1, 0>>), CUInt(<<255, 255>>), CUInt(<<1, 0, 0>>), CUInt(BNMaxU32), CUInt(BNSucc(BNMaxU32)),
+WideWithValidLowByte == {CUInt(<<1, n>>) : n \in {1, 2, 3, 7, 9}} \cup {CUInt(<<1, 0, n>>) : n \in {1, 6}}
+                        \cup {CUInt(<<1, 0, 0, 0, n>>) : n \in {1, 9}} \cup {CUInt(<<1, 0, 0, 0, 0, 0, 0, 0, 3>>)} \cup {CNInt(BN(0)), CNInt(BN(2))}
+BigInts == WideWithValidLowByte \cup {CUInt(<<1, 0>>), CUInt(<<255, 255>>), CUInt(<<1, 0, 0>>), CUInt(BNMaxU32), CUInt(BNSucc(BNMaxU32)),
             CUInt(BNMaxU64), CNInt(BN(0)), CWide(CU(1), 1), CWide(CU(1), 2), CText(<<49>>), CBool(TRUE)}
 U8DecCases ==
     UNION {{TypeDecCase(t, Enc(CU(n)), "enum-u8-cbor") : n \in 0..255}
@@ -42,7 +48,9 @@ U8DecCases ==
 
 \* sub-commands inside full requests (all 256 values)
 SubCommandCases ==
-    {RawCase(<<6>> \o Enc(CMap(<< <<CU(1), CU(1)>>, <<CU(2), CU(n)>> >>)), "pin-subcommand-byte") : n \in 0..255}
+    {RawCase(<<6>> \o Enc(CMap(<< <<CU(1), CU(1)>>, <<CU(2), v>> >>)), "pin-subcommand-wide") : v \in WideWithValidLowByte}
+    \cup {RawCase(<<10>> \o Enc(CMap(<< <<CU(1), v>> >>)), "cm-subcommand-wide") : v \in WideWithValidLowByte}
+    \cup {RawCase(<<6>> \o Enc(CMap(<< <<CU(1), CU(1)>>, <<CU(2), CU(n)>> >>)), "pin-subcommand-byte") : n \in 0..255}
     \cup {RawCase(<<10>> \o Enc(CMap(<< <<CU(1), CU(n)>> >>)), "cm-subcommand-byte") : n \in 0..255}
 
 PermCases == {[op |-> "permissions", tag |-> "permissions", n |-> n] : n \in 0..255}
